@@ -793,7 +793,7 @@ def check(run: Run):
                         ("MC_ComposedApp_thorough.cfg", "n3-all", True),
                         (write_cfg(scratch, "MC_n4_pairwise.cfg", 4, [0, 1, 2, 3], [True, False], plans4), "n4-pairwise", True),
                         (("MC_ComposedApp_live.cfg", live), "liveness", False),
-                        (write_cfg(scratch, "MC_n3_names.cfg", 3, [0, 2, 3], [True, False], plans3, namings=NAMINGS), "n3-names", True),
+                        (write_cfg(scratch, "MC_n3_names.cfg", 3, [0, 2, 3], [True, False], plans3[::2], namings=NAMINGS), "n3-names", True),
                         (write_cfg(scratch, "MC_n3_reps.cfg", 3, [0], [True, False], plans3, reps=REPS[1:]), "n3-reps", True),
                     ],
                     4,
